@@ -247,6 +247,49 @@ func (r *isoRun) observe(d *isoDB) isoObs {
 	return o
 }
 
+// announceOverlap: a write to one database is announced by a goroutine of its own; while that goroutine waits for the
+// pubsub (slow to say who is on the topic), another database of the instance is written to. Each announcement carries
+// the heads of its own database (foreignTraffic looks at everything published afterwards).
+func (r *isoRun) announceOverlap() {
+	names := []string{}
+	for n, d := range r.dbs {
+		if !d.poisoned {
+			names = append(names, n)
+		}
+	}
+	sort.Strings(names)
+	if len(names) < 2 {
+		return
+	}
+	a, b := r.dbs[names[0]], r.dbs[names[1]]
+	h := sim.TheHub
+	topicA := a.local.Addr
+	h.ParkAt("sim.peers", func(args []interface{}) bool {
+		return len(args) > 1 && args[0] == interface{}(r.inst.P) && args[1] == interface{}(topicA)
+	})
+	defer h.Unpark("sim.peers")
+	if _, err := r.write(a.local, a); err != nil {
+		r.res.note("%s: announce overlap: write: %v", r.bid, err)
+		return
+	}
+	p := parkedFor("sim.peers", nil, 2*time.Second)
+	if p == nil {
+		r.res.note("%s: announce overlap: the announcement did not ask who is on the topic", r.bid)
+		return
+	}
+	h.Unpark("sim.peers")
+	if _, err := r.write(b.local, b); err != nil {
+		r.res.note("%s: announce overlap: second write: %v", r.bid, err)
+	}
+	time.Sleep(20 * time.Millisecond) // the listener of the first database takes the second database's event off the bus
+	h.Release(p)
+	r.res.Comparisons++
+	r.res.Stats["announce_overlaps"]++
+	if err := sim.Settle(settleTimeout, r.inst, r.rem); err != nil {
+		r.res.Inconclusive = append(r.res.Inconclusive, r.bid+": announce overlap: "+err.Error())
+	}
+}
+
 func (r *isoRun) poisonedNames() []string {
 	out := []string{}
 	for n, d := range r.dbs {
@@ -557,6 +600,8 @@ func (r *isoRun) run(b Behaviour, idx int) {
 			r.res.note("%s step %d: database %s holds %d entries, specification %d", b.ID, si, dn, o.Len, want)
 		}
 	}
+	r.step = -3
+	r.announceOverlap()
 	r.step = -2
 	r.burst()
 	r.step = -1
